@@ -21,6 +21,7 @@ import (
 	"sort"
 	"strings"
 	"sync"
+	"sync/atomic"
 	"time"
 
 	"github.com/syndtr/goleveldb/leveldb"
@@ -127,7 +128,16 @@ func (c *collector) flushKnown() {
 	c.res.Extra["known_findings_seen"] = ids
 }
 
+// runJob runs one job; a panic of the implementation that reaches the job's own goroutine outside a guarded
+// call is reported as a violation of that job (with the stack), not as a crash of the harness.
 func runJob(c *collector, j job, methods []string, base string) (failed bool) {
+	defer func() {
+		if x := recover(); x != nil {
+			st := trimStack(debugStack())
+			c.violate(fmt.Sprintf("%s: the implementation panicked: %v at %s\n%s", j.Part, x, firstLeveldbFrame(st), st), j, nil)
+			failed = true
+		}
+	}()
 	r := j.rng()
 	res := c.res
 	switch j.Part {
@@ -345,6 +355,11 @@ func main() {
 	res.Extra["harness_jobs_wall_s"] = time.Since(t0).Seconds()
 	res.Extra["unreleased_iterator_after_close_observations (documented unsafe, not part of the verdict)"] = c.logs
 	res.Extra["file_storage_notes"] = c.notes
+	res.Extra["race_call_kinds_dropped_after_a_known_hang (unfixed tree only)"] = map[string]bool{
+		"txn,bigwrite (opentransaction-leaks-writelock-on-close)":           atomic.LoadInt32(&f6Seen) != 0,
+		"setreadonly (setreadonly-leaks-writelock-on-close)":                atomic.LoadInt32(&f7Seen) != 0,
+		"OpenFilesCacheCapacity 1,2 (cache-close-deadlock-recursive-rlock)": atomic.LoadInt32(&f10Seen) != 0,
+	}
 
 	// ---- (K) cases
 	items := make([]string, len(methods))
@@ -354,6 +369,14 @@ func main() {
 	cases := []string{"KEnum [" + strings.Join(items, "; ") + "]"}
 	kj := []interface{}{map[string]interface{}{"enum": methods}}
 	sort.Slice(c.kcases, func(x, y int) bool { return c.kcases[x].index < c.kcases[y].index })
+	kcap := 400
+	if a.Thorough() {
+		kcap = 1600 // keeps every case file below ~300 KB
+	}
+	if len(c.kcases) > kcap {
+		res.Extra["k_sequences_executed_but_not_replayed_in_coq"] = len(c.kcases) - kcap
+		c.kcases = c.kcases[:kcap]
+	}
 	for _, kc := range c.kcases {
 		cases = append(cases, kc.coq)
 		kj = append(kj, kc.js)
